@@ -190,8 +190,13 @@ TQ = {"L": "loop.length|a", "I": "loop.index0|a", "J": "loop.index|a", "R": "loo
 FILTERS = {"-": "", "o": " if x is odd", "e": " if x is even", "n": " if x > 100"}
 
 
-def template_source(script, flt):
-    body = ""
+PRELUDES = ["", "{% macro mm(loop) %}{% endmacro %}", "{% with loop = 5 %}{% endwith %}",
+            "{% macro mm(a, loop=1) %}{{ loop }}{% endmacro %}", "{% call(loop) mm2() %}{% endcall %}"]
+
+
+def template_source(script, flt, prelude=0):
+    """prelude: a nested scope that stores a name `loop` of its own BEFORE the loop variable is used"""
+    body = PRELUDES[prelude] if prelude < 4 else PRELUDES[prelude]
     branches = []
     for i, qs in enumerate(script):
         if qs:
@@ -499,13 +504,14 @@ def run(ctx):
         flt = ctx.rng.choice(["-", "-", "o", "e", "n"])
         mode = "async" if j % 2 else "sync"
         kind = ctx.rng.choice(["list", "tuple", "iter", "gen"] + (["agen"] if mode == "async" else []))
-        tcases.append({"via": "template/" + mode, "iterable": kind, "items": xs, "script": script, "filter": flt, "depth0": 0})
+        tcases.append({"via": "template/" + mode, "iterable": kind, "items": xs, "script": script, "filter": flt, "depth0": 0,
+                       "prelude": ctx.rng.choice([0, 0, 0, 1, 2, 3, 4])})
     tlines = [line_L("U" if c["filter"] != "-" else SIZED[c["iterable"]], c["filter"], 0, c["items"], c["script"]) for c in tcases]
     tout = ctx.driver("loop", tlines)
     for c, ln in zip(tcases, tout):
         m, s = ln[2:].split(" S ", 1)
         mode = c["via"].split("/")[1]
-        src = template_source(c["script"], c["filter"])
+        src = template_source(c["script"], c["filter"], c["prelude"])
         try:
             t = envs[mode].from_string(src)
             data = MAKE[c["iterable"]](c["items"])
@@ -693,7 +699,7 @@ def replay(ctx, data):
             env, src = envs[mode], nested_template_source(case["script"][0], case["place"], flt)
             norm = lambda o: norm_template_output(o.replace(";|", "|"))  # noqa
         else:
-            env, src, norm = envs[mode], template_source(case["script"], flt), norm_template_output
+            env, src, norm = envs[mode], template_source(case["script"], flt, case.get("prelude", 0)), norm_template_output
         print("template:", src)
         t = env.from_string(src)
         dat = MAKE[case["iterable"]](case["items"])
